@@ -223,6 +223,16 @@ def handle (st : St) : List String → St × String
     | some ks, some b, some c, some d, some e, some out =>
       (st, pErrText (applyBytesSrc ⟨st.old, schedOf ks, true⟩ b c d e out))
     | _, _, _, _, _, _ => (st, "bad-op")
+  -- the source is handed to `ZbsdiffPatcher::new` at stream position `pos`. In the code as written
+  -- `get_old_file_size` is `stream_position(); seek(End(0)); seek(Start(saved))` = the absolute
+  -- length, and every `read_old_chunk` seeks to an absolute `Start(p)` before `read_exact`: the
+  -- model (`readOldChunk` over `Source.data` at an explicit `pos`) has no current position at
+  -- all, so its answer is that of `sread` whatever `pos` is — which is the property's claim.
+  | ["apply", "spos", pos, ks, buf, c, d, e, out] =>
+    match pos.toNat?, parseNats ks, buf.toNat?, parseB st c, parseB st d, parseB st e, out.toNat? with
+    | some _, some ks, some b, some c, some d, some e, some out =>
+      (st, pErrText (applyBytesSrc ⟨st.old, schedOf ks, true⟩ b c d e out))
+    | _, _, _, _, _, _, _ => (st, "bad-op")
   | ["apply", "noseek", buf, c, d, e, out] =>
     match buf.toNat?, parseB st c, parseB st d, parseB st e, out.toNat? with
     | some b, some c, some d, some e, some out =>
